@@ -31,7 +31,9 @@ import (
 	"sort"
 	"strconv"
 	"strings"
+	"syscall"
 	"time"
+	"unsafe"
 
 	"github.com/fasthttp/router"
 	"github.com/siglens/siglens/pkg/ast/pipesearch"
@@ -69,20 +71,77 @@ const nLevels = 8
 const nSent = 3 // levels above the data directory that carry sentinels
 
 type H struct {
-	cfg    vhlib.Config
-	sum    *vhlib.Summary
-	root   string
-	data   string   // without trailing slash
-	host   string
-	chain  []string // root, root/l1, ..., parent(data)
-	sites  []string // Coq terms (call, (path, outside))
-	tokens map[string]string // token -> absolute path of the file holding it
-	rt     *router.Router
-	param  string // last route parameter seen by a handler
-	hit    bool
-	qid    uint64
-	curInput string // full request text of the running operation, for the failure report
-	last   map[string]string // snapshot after the previous operation, nil when the tree was touched since
+	cfg      vhlib.Config
+	sum      *vhlib.Summary
+	root     string
+	data     string // without trailing slash
+	host     string
+	chain    []string          // root, root/l1, ..., parent(data)
+	sites    []string          // Coq terms (call, (path, outside))
+	tokens   map[string]string // token -> absolute path of the file holding it
+	rt       *router.Router
+	param    string // last route parameter seen by a handler
+	hit      bool
+	qid      uint64
+	curInput string            // full request text of the running operation, for the failure report
+	last     map[string]string // snapshot after the previous operation, nil when the tree was touched since
+	ino      int               // inotify descriptor watching the directories outside the data dir (-1: unavailable)
+	inoWd    map[int32]string  // watch descriptor -> directory
+}
+
+// ---------- which files outside the data directory does an operation OPEN? ----------
+// The sentinel directories (every ancestor of the data directory inside the scratch root) are watched with inotify:
+// an open of a file there during an operation is an escape even when nothing of its content reaches the answer
+// (a reader that opens, fails to decode and says "not found").
+func (h *H) watchOutside() {
+	h.ino = -1
+	fd, err := syscall.InotifyInit1(syscall.IN_NONBLOCK | syscall.IN_CLOEXEC)
+	if err != nil {
+		h.sum.Count("inotify/unavailable")
+		return
+	}
+	h.ino, h.inoWd = fd, map[int32]string{}
+	for _, d := range h.chain {
+		wd, err := syscall.InotifyAddWatch(fd, d, syscall.IN_OPEN)
+		if err == nil {
+			h.inoWd[int32(wd)] = d
+		}
+	}
+}
+
+// files opened in the watched directories since the last call
+func (h *H) drainOpened() []string {
+	if h.ino < 0 {
+		return nil
+	}
+	seen := map[string]bool{}
+	var out []string
+	buf := make([]byte, 64*1024)
+	for {
+		n, err := syscall.Read(h.ino, buf)
+		if n <= 0 || err != nil {
+			break
+		}
+		for off := 0; off+syscall.SizeofInotifyEvent <= n; {
+			ev := (*syscall.InotifyEvent)(unsafe.Pointer(&buf[off]))
+			name := ""
+			if ev.Len > 0 {
+				nb := buf[off+syscall.SizeofInotifyEvent : off+syscall.SizeofInotifyEvent+int(ev.Len)]
+				name = strings.TrimRight(string(nb), "\x00")
+			}
+			off += syscall.SizeofInotifyEvent + int(ev.Len)
+			if ev.Mask&syscall.IN_ISDIR != 0 || name == "" {
+				continue // directory listings (the harness's own snapshots) are not file reads
+			}
+			p := h.inoWd[ev.Wd] + "/" + name
+			if !seen[p] {
+				seen[p] = true
+				out = append(out, p)
+			}
+		}
+	}
+	sort.Strings(out)
+	return out
 }
 
 // ---------- sentinel tree ----------
@@ -177,7 +236,7 @@ func (h *H) snap() map[string]string {
 
 type diffT struct {
 	created, modified, deleted []string
-	createdIsDir              map[string]bool
+	createdIsDir               map[string]bool
 }
 
 func diff(a, b map[string]string) diffT {
@@ -321,7 +380,8 @@ type opRes struct {
 	Status int      `json:"status"`
 	Diff   diffT    `json:"-"`
 	Body   string   `json:"-"`
-	Read   []string `json:"read,omitempty"` // files whose token came back in the response
+	Read   []string `json:"read,omitempty"`   // files whose token came back in the response
+	Opened []string `json:"opened,omitempty"` // files outside the data directory that were opened during the operation (inotify)
 	Query  string   `json:"query,omitempty"`
 }
 
@@ -333,6 +393,7 @@ func (h *H) op(site string, nc nameCase, direct bool, f func() (int, string)) *o
 		before = h.snap()
 	}
 	res := &opRes{Site: site, Name: nc.Name, Stream: nc.Stream, Query: h.curInput}
+	_ = h.drainOpened() // opens made by the harness itself (snapshots, restoring sentinels)
 	func() {
 		defer func() {
 			if r := recover(); r != nil {
@@ -342,6 +403,7 @@ func (h *H) op(site string, nc nameCase, direct bool, f func() (int, string)) *o
 		}()
 		res.Status, res.Body = f()
 	}()
+	res.Opened = h.drainOpened()
 	after := h.snap()
 	h.last = after
 	res.Diff = diff(before, after)
@@ -377,6 +439,11 @@ func (h *H) op(site string, nc nameCase, direct bool, f func() (int, string)) *o
 	for _, p := range res.Read {
 		if !h.inside(p) {
 			bad = append(bad, "read "+p)
+		}
+	}
+	for _, p := range res.Opened {
+		if !h.inside(p) && len(bad) == 0 {
+			bad = append(bad, "opened "+p)
 		}
 	}
 	if len(bad) > 0 {
@@ -619,11 +686,11 @@ func safeObs(name string, accepted bool) {
 
 // what the REAL SPL parser makes of the query: file name and every option the processor gets
 type ilParsed struct {
-	ok                            bool
-	Filename                      string
-	Start, Max                    uint64
+	ok                           bool
+	Filename                     string
+	Start, Max                   uint64
 	Append, Strict, Where, First bool
-	node                          *structs.QueryAggregators
+	node                         *structs.QueryAggregators
 }
 
 func (q ilParsed) coq() string {
@@ -1179,7 +1246,7 @@ func (h *H) protocolSites(nc nameCase, i int) {
 	// OTLP logs: resource attribute siglensIndexName
 	res = h.op("otlp_index", nc, false, func() (int, string) {
 		req := &collogpb.ExportLogsServiceRequest{ResourceLogs: []*logpb.ResourceLogs{{
-			Resource: &resourcepb.Resource{Attributes: []*commonpb.KeyValue{{Key: "siglensIndexName", Value: &commonpb.AnyValue{Value: &commonpb.AnyValue_StringValue{StringValue: name}}}}},
+			Resource:  &resourcepb.Resource{Attributes: []*commonpb.KeyValue{{Key: "siglensIndexName", Value: &commonpb.AnyValue{Value: &commonpb.AnyValue_StringValue{StringValue: name}}}}},
 			ScopeLogs: []*logpb.ScopeLogs{{LogRecords: []*logpb.LogRecord{{TimeUnixNano: 1700000000000000000, Body: &commonpb.AnyValue{Value: &commonpb.AnyValue_StringValue{StringValue: "b"}}}}}},
 		}}}
 		data, err := proto.Marshal(req)
@@ -1573,6 +1640,7 @@ func main() {
 		return
 	}
 	h.writeSentinels()
+	h.watchOutside()
 
 	// the real node, rooted at the private data directory
 	config.InitializeTestingConfig(h.data + "/")
